@@ -342,7 +342,7 @@ def run(ctx):
     recs = res["export"] + res["ext"]
     try:
         for rec in recs:
-            replay(ctx, rec, salt=ctx.seed, all_stops=ctx.thorough)
+            replay(ctx, rec, salt=ctx.seed, all_stops=True)
             ctx.traces += 1
             if rec["prog"] and rec["n"]:
                 ctx.distinct.add(core.canon([rec["prog"], rec["n"]]))
@@ -361,12 +361,8 @@ def run(ctx):
     for rec in srecs:
         if rec["branch"] != "islice" and (ctx.thorough or (rec["n"] in (0, 3, 7, 10))):
             m = len(rec["out"])
-            if ctx.thorough:
-                stops = [(k, STOPKINDS[(k + j) % 3]) for k in range(m) for j in range(3)]
-            elif rec["n"] in (7, 10):
-                stops = [(k, STOPKINDS[(k + nneg + ctx.seed) % 3]) for k in sorted({0, 1, m // 2})]
-            else:
-                stops = ()
+            # every stop point k, by close / drop / throw
+            stops = [(k, kind) for k in range(m) for kind in STOPKINDS]
             try:
                 replay_negslice(ctx, rec, lena, stops)
             except Exception as exc:    # noqa  (the real Slice raised)
